@@ -58,6 +58,14 @@ func (c *collection) deleteWithFilter(
 		return nil, err
 	}
 
+	// If the plan isn't properly closed at any exit point log the error.
+	// This must be registered before Init, which may already open iterators.
+	defer func() {
+		if err := selectionPlan.Close(); err != nil {
+			log.ErrorContextE(ctx, "Failed to close the request plan, after filter delete", err)
+		}
+	}()
+
 	err = selectionPlan.Init()
 	if err != nil {
 		return nil, err
@@ -66,13 +74,6 @@ func (c *collection) deleteWithFilter(
 	if err := selectionPlan.Start(); err != nil {
 		return nil, err
 	}
-
-	// If the plan isn't properly closed at any exit point log the error.
-	defer func() {
-		if err := selectionPlan.Close(); err != nil {
-			log.ErrorContextE(ctx, "Failed to close the request plan, after filter delete", err)
-		}
-	}()
 
 	results := &client.DeleteResult{
 		DocIDs: make([]string, 0),
